@@ -34,7 +34,7 @@ var syncCalls = map[string]bool{"cancel": true, "workerCtxCancel": true, "schedu
 	"IterationsExhausted": true, "RecordDroppedIteration": true, "recordDropped": true, "halt": true, "stop": true,
 	"sendJobsForExecution": true, "waitForNewJobs": true, "maxIterationsReached": true, "WaitForCompletion": true,
 	"Reset": true, "Run": true, "Trigger": true, "SnapshotProgress": true, "GetTotals": true, "Stop": true, "Start": true,
-	"Restart": true, "CollectLifetime": true, "Update": true, "drain": true, "Snapshot": true, "Record": true}
+	"Restart": true, "startFirst": true, "startNext": true, "NewTicker": true, "NewTimer": true, "CollectLifetime": true, "Update": true, "drain": true, "Snapshot": true, "Record": true}
 
 const hookImport = "github.com/form3tech-oss/f1/v2/internal/verifh/hook"
 
